@@ -166,12 +166,13 @@ def run(tier, seed):
     if len(ptraces) < 2:
         v.fail_machinery("coverage floor: only %d two-form pairs" % len(ptraces))
     clean = [t for t in traces if t["id"] not in gfailed]
-    if clean and ptraces:
+    pclean = [t for t in ptraces if t["id"] not in pfailed and "curl" in t]
+    if clean and pclean:
         a = copy.deepcopy(clean[0]); a["id"] = 9001
         for p in a["pairs"]:
             if p["clause"] == "CurlY" and p["loc"] == "centre":
                 p["a"] = [[-x if x != 2000000000 else x for x in row] for row in p["a"]]
-        b = copy.deepcopy(ptraces[0]); b["id"] = 9002
+        b = copy.deepcopy(pclean[0]); b["id"] = 9002
         b["curl"]["x"]["B"] = [[-x for x in row] for row in b["curl"]["x"]["B"]]
         mf, _ = gridprops.validate([a, b], "C07mut")
         okn = int(any(c == "CurlY" for c, _ in mf.get(9001, ()))) + int(any(c == "TwoFormsAgree" for c, _ in mf.get(9002, ())))
